@@ -48,8 +48,58 @@ def oracle(ctx, case, hist, maps, spec):
         prev = r['state']
 
 
+def name_mode_inspection_probe(ctx):
+    """inspection runs nothing and loses nothing — also in name mode, where the "readable" name of a result defaults to the config name,
+    i.e. to the very name the result is stored under: after every inspection call the results are still there and a later chain is
+    served from them"""
+    from tcv import gen, pipeline as pl
+    root = ctx.tmpdir() / 'nmi'
+    for k in range(ctx.n(6, 40)):
+        rng = ctx.rng('name-mode-inspect', k)
+        kinds = [rng.choice(['json', 'numpy', 'pandas', 'generated', 'dir']) for _ in range(2)]
+        spec = {'classes': {'K0': {'name': 'up', 'group': rng.choice(['', 'g']), 'params': [{'name': 'x'}], 'inputs': [], 'kind': kinds[0], 'run_args': ['x']},
+                            'K1': {'name': 'down', 'group': '', 'params': [], 'inputs': [{'by': 'class', 'ref': 'K0'}], 'kind': kinds[1], 'run_args': [],
+                                   'pull': [], 'in_kinds': {}}},
+                'files': {'exp.json': {'tasks': ['K0', 'K1'], 'x': k}}, 'main': 'exp.json'}
+        b = pl.materialize(spec, root / f'c{k}', modname=gen.fresh_modname())
+        mod = b.module()
+        data = root / f'd{k}'
+        case = {'probe': 'name mode: inspection', 'kinds': kinds}
+        ctx.case(case); ctx.count('name-mode-inspection-probe')
+        ch, err = pl.build(b, data, parameter_mode=False)
+        if err:
+            b.cleanup_module(); continue
+        for t in ch.tasks.values():
+            _ = t.value
+        mod.RUNLOG.clear()
+        calls = [('has_data', lambda c: [t.has_data for t in c.tasks.values()]), ('data_path', lambda c: [t.data_path for t in c.tasks.values()]),
+                 ('run_info', lambda c: [t.run_info for t in c.tasks.values()]), ('log', lambda c: [t.log for t in c.tasks.values()]),
+                 ('tasks_df', lambda c: c.tasks_df), ('create_readable_filenames()', lambda c: c.create_readable_filenames()),
+                 ('create_readable_filenames(name=…)', lambda c: c.create_readable_filenames(name='nice')),
+                 ('create_readable_filenames(keep_existing=True)', lambda c: c.create_readable_filenames(keep_existing=True)),
+                 ('create_readable_filenames() again', lambda c: c.create_readable_filenames())]
+        rng.shuffle(calls)
+        for what, fn in calls:
+            try:
+                fn(ch)
+            except Exception as e:      # noqa
+                ctx.fail('an inspection call raised', {**case, 'call': what}, f'{type(e).__name__}: {e}'[:200]); break
+            if mod.RUNLOG:
+                ctx.fail('inspection ran tasks', {**case, 'call': what}, {'ran': [x[0] for x in mod.RUNLOG]}); break
+            gone = [t.fullname for t in ch.tasks.values() if persisting(t) and not t.has_data]
+            if gone:
+                ctx.fail('an inspection call removed a stored result', {**case, 'call': what}, {'tasks': gone}); break
+        ch2, _ = pl.build(b, data, parameter_mode=False)
+        for t in ch2.tasks.values():
+            _ = t.value
+        if mod.RUNLOG:
+            ctx.fail('a later chain ran a task whose result had been stored (after inspection calls)', case, {'ran': [x[0] for x in mod.RUNLOG]})
+        b.cleanup_module()
+
+
 def run(ctx):
     machine.run_batch(ctx, ctx.n(60, 800), allow={'restart'}, oracle=oracle)
+    name_mode_inspection_probe(ctx)
 
 
 def search(ctx, divergences):
